@@ -82,6 +82,53 @@ CHECKS = {
    note="Bounded: seven fixed declaration sets, arm lists of <= 2-3 (quick) / 3-4 (thorough) patterns from generated pools. Disagreement between the "
         "transcription and the checker's internals that does not change a verdict is MODEL-DRIFT.",
    technique="TLA+ rule transcription + semantics checked exhaustively by TLC; every enumerated case replayed on the real checker and judged by a TLA+ trace spec"),
+ "C06": dict(
+   level="fault_enumeration", design="§5 C06, §10",
+   text="Pipeline.tla is the protocol of one compilation (Start -> Parsed -> Checked -> Emitted | Refused) with the ground-truth fault set in the state; "
+        "TLC checks that a faulty program is refused with an error in an offending module and that nothing is emitted. The fault model is twelve "
+        "mutation operators, each applied textually at every applicable site of accepted programs (generated + repository) with a construction "
+        "argument that the mutant is ill-formed by the language rules (validated by re-parsing to exactly the intended tree); every mutant's recorded "
+        "pipeline trace (front verdict, error modules, artefacts from the real compile_sources) is judged by PipelineTrace.tla.",
+   note="Single-fault mutants only; sites are all applicable sites in the quick corpus sample / 1500 generated programs in the thorough tier. "
+        "'No code emitted' is observed on samlang_compiler::compile_sources, the function the CLI calls.",
+   technique="TLA+ pipeline protocol spec + fault-model mutants of accepted programs, traces validated by TLC"),
+ "C08": dict(
+   level="model_checking", design="§5 C08, §10",
+   text="Syntax.tla transcribes the printer's parenthesisation rule and the parser's precedence climbing (plus a character-level model of string "
+        "literals); TLC checks Parse(Print(t)) = t for every expression tree up to depth 2 (quick: + a depth-3 sample; thorough: depth 3 exhaustively "
+        "over operator sets covering every precedence triple). Every enumerated tree is replayed on the real code: fully parenthesised text -> real parser "
+        "(binds the tree notion), real printer at several widths -> real parser; SyntaxTrace.tla decides that the re-parsed tree equals the original and no "
+        "syntax error appeared. Same round trip on repository files, comment-inserted variants and generated modules.",
+   note="Open known finding C08-reassociation (`a + (b + c)` -> `a + b + c`, pinned by the repository's own test): the enumerator stays out of exactly that "
+        "region and SyntaxTrace tolerates exactly Regroup(orig); its witness is replayed every run.",
+   technique="TLA+ transcription of printer and parser checked by TLC; every enumerated tree replayed through the real printer/parser and judged by a TLA+ trace spec"),
+ "C13": dict(
+   level="exploration", design="§5 C13, §10",
+   text="Rewrites.tla models the eight meaning-preserving rewrites as actions on a small program and checks the stutter property (verdict, and behaviour when "
+        "accepted) over chains of up to 3; the harness applies the rewrites textually from AST locations to accepted and rejected programs, confirms "
+        "structurally that exactly the intended edit happened, compiles and runs original and rewritten programs on both back ends, and RewritesTrace.tla "
+        "(extending Observations.tla's notion of implementation-defined runs) checks the action property between consecutive steps of every recorded history.",
+   note="Instances are sampled uniformly over kinds and sites; invalid instances (validity check fails) are discarded and counted, never judged.",
+   technique="TLA+ action-property spec + recorded rewrite histories of real programs validated by TLC"),
+ "C14": dict(
+   level="model_checking", design="§5 C14, §10",
+   text="Positions.tla is the (line, byte column) position machine of the lexer plus the well-formedness predicates on location trees; TLC model-checks the "
+        "machine exhaustively on short abstract character sequences (compositionality, monotonicity, offset round trip). PositionsTrace.tla validates, for every "
+        "recorded document (repository files, generated modules, each under token-preserving layout perturbations: CRLF, tabs, multi-byte text, long lines, "
+        "comments), that every location of the parsed tree and every location the services report lies inside the document, has start <= end, that parents "
+        "enclose children, siblings are disjoint and every name's range spells the name.",
+   note="Open known finding: find-references reports `Name<Args>` ranges for annotation uses (ssa_analysis.rs records annotation.location; pinned by "
+        "ssa_analysis_tests.rs). The lexer itself is private: token positions are bound through parser node boundaries (drift level).",
+   technique="TLA+ position machine model-checked by TLC + trace validation of recorded location trees and service results"),
+ "C16": dict(
+   level="model_checking", design="§5 C16, §10",
+   text="Edits.tla models a document as lines with an import section, edit application, and the expected result of importing class K from module M; TLC "
+        "enumerates the document space (0-3 imports, with/without `;`, comments and blank lines between, five layouts) and checks the model's own theorems. "
+        "For every enumerated document (and documents reached through seeded update histories) the real code_actions and completion additional_edits are "
+        "recorded; EditsTrace.tla decides that ranges are inside the document and disjoint, the applied text parses without new syntax errors, the class is "
+        "imported from the named module and no longer unresolved, and every other import and toplevel is unchanged.",
+   note="Documents are ASCII; comment re-attachment after the edit is counted but not judged (the property compares programs up to comments).",
+   technique="TLA+ edit/document model enumerated by TLC; every case replayed on the real server and judged by a TLA+ trace spec"),
 }
 
 NOT_YET = "machinery for this property is not built yet in this round (see DESIGN.md §9 build order)"
